@@ -27,7 +27,7 @@ ASSUMPTIONS = [
 
 @st.composite
 def case(draw):
-    spec = draw(econ.economy(zones=(2, 3), horizon=(2, 4)))
+    spec = draw(econ.economy(zones=(2, 3), horizon=gen.size((2, 4), (2, 7))))
     all_c = [(zi, ci) for zi, z in enumerate(spec['zones']) for ci, c in enumerate(z['countries']) if c['hh']]
     cross = [l for l in spec['links'] if l['src'][0] != l['dst'][0]]
     if not cross:
